@@ -492,28 +492,35 @@ pub fn oracle(_ctx: &RunCtx, spec: &WipeSpec, log: &mut CaseLog) -> Result<(), S
             ));
         }
     }
-    // ---- a prove call refused EARLY because a blinding generator is the identity (degenerate public generator set)
+    // ---- a prove call refused EARLY because a blinding generator is the identity (degenerate public generator set); if the
+    // constructors already refuse such a set there is no such call to look at
     {
         let mut pc = R::pedersen(cfg.ext);
         let last = cfg.ext - 1;
         pc.g_base_vec[last] = <RistrettoPoint as curve25519_dalek::traits::Identity>::identity();
         pc.g_base_compressed_vec[last] = pc.g_base_vec[last].compress();
-        let params = tari_bulletproofs_plus::range_parameters::RangeParameters::init(bits, cfg.cap, pc.clone()).map_err(crate::runner::skip_err)?;
-        let cs: Vec<RistrettoPoint> = t
-            .values
-            .iter()
-            .zip(t.blindings.iter())
-            .map(|(v, r)| pc.commit(&Scalar::from(*v), r).map_err(crate::runner::skip_err))
-            .collect::<Result<_, _>>()?;
-        let st_deg = RangeStatement::init(params, cs, t.promises.clone(), t.seed).map_err(crate::runner::skip_err)?;
-        let mut tr = t.transcript();
-        let mut rng = tspec.rng.make();
-        alloc::capture_start();
-        let r = guarded(|| R::prove(&mut tr, &st_deg, &t.w, &mut rng).is_ok());
-        let c = alloc::capture_stop();
-        r?;
-        scan("prove refused because a blinding generator is the identity", c, &secrets, &mut stats)?;
-        drop(st_deg);
+        let built = (|| -> Result<RangeStatement<RistrettoPoint>, String> {
+            let params = tari_bulletproofs_plus::range_parameters::RangeParameters::init(bits, cfg.cap, pc.clone()).map_err(|e| format!("{:?}", e))?;
+            let cs: Vec<RistrettoPoint> = t
+                .values
+                .iter()
+                .zip(t.blindings.iter())
+                .map(|(v, r)| pc.commit(&Scalar::from(*v), r).map_err(|e| format!("{:?}", e)))
+                .collect::<Result<_, _>>()?;
+            RangeStatement::init(params, cs, t.promises.clone(), t.seed).map_err(|e| format!("{:?}", e))
+        })();
+        if let Ok(st_deg) = built {
+            let mut tr = t.transcript();
+            let mut rng = tspec.rng.make();
+            alloc::capture_start();
+            let r = guarded(|| R::prove(&mut tr, &st_deg, &t.w, &mut rng).is_ok());
+            let c = alloc::capture_stop();
+            r?;
+            scan("prove refused because a blinding generator is the identity", c, &secrets, &mut stats)?;
+            drop(st_deg);
+        } else {
+            log.label("wipe:identity-generator-set-refused-by-constructors");
+        }
     }
     if stats.1 == 0 {
         return Err(format!("{} no freed block of >= 32 bytes was observed", INCONCLUSIVE));
